@@ -341,6 +341,34 @@ def offset_invariance(c, iface, name, C=-2000.0):
     c.eq('chain_unchanged_by_a_large_positive_constant_in_the_log_density', d, a, tol=1e-6)
 
 
+def proposal_validation(c, iface, name):
+    """the random-walk samplers accept with min(1, pi(x')/pi(x)), i.e. WITHOUT the Hastings factor q(x|x')/q(x'|x): that is the MH probability only for a symmetric
+    proposal, so a proposal distribution that is flagged asymmetric - or does not declare symmetry at all - must be refused (at construction and when assigned
+    later); a flagged-symmetric one is accepted"""
+    import cuqi
+    from cuqi.distribution import Gaussian, Gamma, InverseGamma, UserDefinedDistribution, Normal
+    n = 2
+    tgt = Gaussian(np.zeros(n), 1.0, name='x')
+    mod = cuqi.experimental.mcmc if iface == 'exp' else cuqi.sampler
+    cls = getattr(mod, name)
+    if name == 'MH':
+        good = lambda: Gaussian(np.zeros(n), 1.0)
+        bad = {'flagged_asymmetric': lambda: Gamma(2.0 * np.ones(n), 1.0),
+               'symmetry_not_declared': lambda: UserDefinedDistribution(dim=n, sample_func=lambda rng=None: np.ones(n)),
+               'symmetric_flag_removed': lambda: Gaussian(np.zeros(n), 1.0, is_symmetric=None)}
+    else:   # component-wise: proposals are conditional on location and scale
+        good = lambda: Normal(mean=lambda location: location, std=lambda scale: scale, geometry=n)
+        bad = {'flagged_asymmetric': lambda: InverseGamma(shape=3.0, location=lambda location: location, scale=lambda scale: scale, geometry=n),
+               'symmetric_flag_removed': lambda: Normal(mean=lambda location: location, std=lambda scale: scale, geometry=n, is_symmetric=None)}
+    mk = (lambda p: cls(tgt, proposal=p, scale=0.5)) if iface == 'exp' else (lambda p: cls(tgt, proposal=p, scale=0.5, x0=np.zeros(n)))
+    c.no_raise('symmetric_proposal_accepted', lambda: mk(good()))
+    for tag, b in bad.items():
+        c.expect_raise(f'{tag}_proposal_refused_at_construction', lambda b=b: mk(b()), ValueError)
+        s = mk(good())
+        def assign(b=b): s.proposal = b()
+        c.expect_raise(f'{tag}_proposal_refused_when_assigned_later', assign, ValueError)
+
+
 def jobs(tier):
     J = []
     NF = [None, float('nan'), float('-inf')]
@@ -375,5 +403,10 @@ def jobs(tier):
     for iface in ('exp', 'leg'):
         for name in ('MH', 'CWMH', 'MALA'):
             J.append(Job(f'{"experimental" if iface == "exp" else "legacy"}.{name}:log_density_offset_invariance', lambda c, i=iface, nm=name: offset_invariance(c, i, nm), 'B', [], nnum=2))
+    for iface in ('exp', 'leg'):
+        for name in ('MH', 'CWMH'):
+            m_ = (EXP if iface == 'exp' else LEG) + ('._mh' if name == 'MH' else '._cwmh')
+            J.append(Job(f'{"experimental" if iface == "exp" else "legacy"}.{name}:proposal_validation', lambda c, i=iface, nm=name: proposal_validation(c, i, nm), 'B',
+                         [f'{m_}:{name}.validate_proposal' if iface == 'exp' else f'{m_}:{name}.proposal'], nnum=1))
     J.append(Job('lemma:L-MH:detailed_balance', lemma_mh, 'Pinf', []))
     return J
